@@ -46,10 +46,18 @@ ClmExtents(i) == LET off == W32(60 + 16 * i + 8)  len == W32(60 + 16 * i + 12) I
 Extents(i) == IF kind = "vol" THEN VolExtents(i) ELSE ClmExtents(i)
 InFile(x) == x.off + x.len <= FLen
 Slice(x) == SubSeq(image, x.off + 1, x.off + x.len)
+\* the extracted file is the stored block itself: a VOL member with compression code 0x100 in its index entry (a CLM member is extracted
+\* as a WAV file around its data, an LZH member decompressed: for those only the refusal rule applies here)
+StoredPlain(i) == kind = "vol" /\ (VolIndexAt # 0 /\ LET o == VolIndexAt + 14 * i + 12 IN o + 2 <= FLen /\ image[o + 1] = 0 /\ image[o + 2] = 1)
 Reset == Ev.e = "Reset" /\ kind' = Ev.kind /\ image' = Ev.image /\ resp' = <<>> /\ count' = 0
 Allowed ==
   CASE Ev.call = "GetCount" -> TRUE
-    [] Ev.call \in {"GetName", "GetSize", "Extract"} -> (Ev.i >= count => ~Ev.ok)
+    [] Ev.call \in {"GetName", "GetSize"} -> (Ev.i >= count => ~Ev.ok)
+    [] Ev.call = "Extract" ->                                                    \* extraction to disk: the same extent rule, whatever the compression kind
+         /\ (Ev.i >= count => ~Ev.ok)
+         /\ LET xs == Extents(Ev.i) IN
+            /\ (xs # {} /\ Ev.i < count /\ \A x \in xs : ~InFile(x)) => ~Ev.ok     \* "refused rather than delivered short" (also for compressed members)
+            /\ (xs # {} /\ Ev.i < count /\ Ev.ok /\ StoredPlain(Ev.i)) => \E x \in xs : InFile(x) /\ Ev.val = Slice(x)
     [] Ev.call = "OpenStream" ->
          /\ (Ev.i >= count => ~Ev.ok)
          /\ LET xs == Extents(Ev.i) IN
